@@ -59,6 +59,11 @@ CLAIMED = {
         engine="sim-crash", level="exploration", ref="DESIGN.md §6 C11",
         technique="deterministic simulation: every open path (clean, quick-repair, full repair, crash during repair) followed by check_integrity and further transactions, against the reference model",
         text="Seeded search over histories stopped by clean close or crash image (all commit strategies) and reopened, repeatedly; after each open check_integrity() must be Ok(true) with contents equal to the model and persistent savepoints intact, and a post-reopen workload followed by another reopen must keep model equality. Allocation state is judged through check_integrity and behaviour in this check."),
+    "C12": dict(
+        engine="sim-corrupt", level="fault_enumeration", ref="DESIGN.md §6 C12",
+        technique="deterministic simulation with stored-byte corruption faults: closed images of seeded histories are altered (all 2560 header bits in slices; pages by role from the independent decoder) and opened + check_integrity()'d by the real code",
+        text="For closed images produced by seeded histories: every bit of the 320-byte super-header (enumerated in 16 slices across runs) and sampled alterations stratified by page role (data tree, system tree, pending-free pages; single bit, single byte, run of bytes within a page, two pages swapped; biased to the used head of a page) are applied; then open and check_integrity(): an error, or Ok(false) followed by contents equal to one commit point of the history and a second Ok(true), or Ok(true) with contents (and persistent savepoint list) equal to exactly one commit point. Run on a build without debug assertions, as users run it. A panic on damaged bytes is counted as 'reported' and shown in the evidence, not raised.",
+        note="Trusted base: harness, reference model, independent decoder (used only to place alterations). A panic while opening or checking a damaged file is counted, not judged. Sampling outside the header."),
     "C13": dict(
         engine="sim-crash", level="exploration", ref="DESIGN.md §6 C13",
         technique="deterministic simulation: compaction at arbitrary points of seeded histories, with crash images inside the compaction",
@@ -79,7 +84,6 @@ CLAIMED = {
 }
 
 NOT_YET = {
-    "C12": "check not built yet (stored-byte corruption engine, DESIGN.md §6 C12); no claim is made until it exists",
     "C18": "check not built yet (experimental_cursor feature build of the conformance tier); no claim is made until it exists",
     "C19": "check not built yet (two implementations on one simulated disk); no claim is made until it exists",
 }
@@ -129,6 +133,8 @@ manifest = {
          "kind_free_text": "the same simulator with fault injection at every backend call index, followed by crash-state reopen"},
         {"name": "sched", "path": "/verif/sched", "serves_properties": ["C02", "C03", "C16", "C20"],
          "kind_free_text": "real redb (copy of /repo/src, sync.rs replaced by shuttle primitives) with client tasks under seeded stall / random / PCT schedulers; replay = same plan + scheduler seed, schedule hash compared"},
+        {"name": "sim-corrupt", "path": "/verif/sim", "serves_properties": ["C12"],
+         "kind_free_text": "the same simulator (release build without debug assertions) with stored-byte corruption of closed images"},
         {"name": "sim-crash", "path": "/verif/sim", "serves_properties": [p for p in sorted(CLAIMED) if CLAIMED[p]["engine"] == "sim-crash"],
          "kind_free_text": "the same simulator plus crash-image exploration over the recorded backend op log (record once, crash many), nested crashes in recovery"},
     ],
